@@ -228,7 +228,7 @@ func c19(raw json.RawMessage) interface{} {
 		return map[string]interface{}{"bad_case": err.Error()}
 	}
 	if c.TsvOnly {
-		idx, err := fai.ReadFrom(bytes.NewReader(bytesOf(c.Tsv)))
+		idx, err := fai.ReadFrom(textSource(bytesOf(c.Tsv)))
 		return map[string]interface{}{"rt": c19idxObs(idx, c19readFromErr(err), err)}
 	}
 	file := bytesOf(c.File)
@@ -236,7 +236,7 @@ func c19(raw json.RawMessage) interface{} {
 		// one long line of N bases 'A' between Pre and Post
 		file = append(append(bytesOf(c.Long.Pre), bytes.Repeat([]byte{'A'}, c.Long.N)...), bytesOf(c.Long.Post)...)
 	}
-	idx, err := fai.NewIndex(bytes.NewReader(file))
+	idx, err := fai.NewIndex(textSource(file))
 	out := map[string]interface{}{"idx": c19idxObs(idx, c19newIndexErr(err), err)}
 	if err != nil {
 		return out
@@ -247,7 +247,7 @@ func c19(raw json.RawMessage) interface{} {
 	if werr != nil {
 		out["tsv_err"] = werr.Error()
 	}
-	back, rerr := fai.ReadFrom(bytes.NewReader(w.Bytes()))
+	back, rerr := fai.ReadFrom(textSource(w.Bytes()))
 	out["rt"] = c19idxObs(back, c19readFromErr(rerr), rerr)
 	f := fai.NewFile(bytes.NewReader(file), idx)
 	fe := fai.NewFile(c19eagerReaderAt{file}, idx)
